@@ -162,7 +162,9 @@ class World(object):
                 raise IOError("EWOULDBLOCK")
         rep = self.ready.pop(0)
         self.received.append(rep)
-        return rep.data
+        # a datagram socket hands over at most n bytes of the datagram and
+        # discards the rest
+        return rep.data[:n] if len(rep.data) > n else rep.data
 
 
 def ack_machine(data):
